@@ -5,7 +5,7 @@ import itertools
 import random
 
 from . import vlog
-from .emit import Emitter, EmitError
+from .emit import Emitter, EmitError, ConfigRefused
 from .ireval import Cfg, ev, Nondet, EvalError, HOLDV
 from .summ import Summariser, NotSummarisable, Env, show, showp, c as C
 
@@ -322,8 +322,13 @@ def compare(block, left, right, cfgs, seed=0, max_diffs=3, prev_values=False):
         try:
             L = left(cfg)
             R = right(cfg)
-        except (EmitError, vlog.VParseError) as e:
-            diffs.append(Mismatch('not-evaluable: %s' % e, None, None, None, cfg, None))
+        except ConfigRefused:
+            ncfg -= 1
+            continue
+        except EmitError as e:
+            raise
+        except vlog.VParseError as e:
+            diffs.append(Mismatch('emitted text does not parse: %s' % e, None, None, None, cfg, None))
             if len(diffs) >= max_diffs:
                 break
             continue
